@@ -19,7 +19,7 @@ SPEC = {
 }
 
 CLAIM = {
-    "text": "Four parts. PIPELINE: requests for names of blocked services go through a real dnsforward.Server over UDP/TCP, alternating between a persistent client with blocked services and a pause schedule of its own and senders under the global ones (schedules: all week, empty, or a whole-day range in a fixed-offset zone where it is another weekday); each request must be decided by the schedule that applies to its own sender, whatever request came before. UPDATES: the global pause schedule is replaced through PUT /control/blocked_services/update (schedules whose state at the real instant is unambiguous) while 8 goroutines filter requests; every request started after the handler returned must follow the new schedule (race detector on). FILTER: on virtual time (testing/synctest) a real DNSFilter with a global blocked-services schedule and a client with its own schedule and service list is asked, at instants walked through weeks incl. range edges and DST days, whether a service name is blocked (ApplyAdditionalFiltering + CheckHost); it must be blocked exactly when the service is in the effective list and the effective schedule does not contain the instant by wall-clock reckoning. CONTAINS: Seeded sweep of (IANA zone on the host, weekly schedule, instant) triples: Weekly values are built through the real JSON/YAML decoders and Contains is compared with an independent wall-clock oracle; instants concentrate on every UTC-offset transition 2020-2030 of the zone, range edges +-1ns/+-1min and local midnights. JSON/YAML round trips and rejection of invalid ranges (with a positive control) are swept as well. Exploration: held on the cases observed, which the evidence counts.",
+    "text": "Four parts. PIPELINE: requests for names of blocked services go through a real dnsforward.Server over UDP/TCP, alternating between a persistent client with blocked services and a pause schedule of its own and senders under the global ones (schedules: all week, empty, or a whole-day range in a fixed-offset zone where it is another weekday); each request must be decided by the schedule that applies to its own sender, whatever request came before. UPDATES: the global pause schedule is replaced through PUT /control/blocked_services/update (schedules whose state at the real instant is unambiguous) while 8 goroutines filter requests; every request started after the handler returned must follow the new schedule (race detector on). FILTER: on virtual time (testing/synctest) a real DNSFilter with a global blocked-services schedule and a client with its own schedule and service list is asked, at instants walked through weeks incl. range edges and DST days, whether a service name is blocked (ApplyAdditionalFiltering + CheckHost); it must be blocked exactly when the service is in the effective list and the effective schedule does not contain the instant by wall-clock reckoning. CONTAINS: Seeded sweep of (IANA zone on the host, weekly schedule, instant) triples: Weekly values are built through the real JSON/YAML decoders and Contains is compared with an independent wall-clock oracle; instants concentrate on every UTC-offset transition 2020-2030 of the zone, range edges +-1ns/+-1min and local midnights. JSON/YAML round trips and rejection of invalid ranges (with a positive control) are swept as well. Exploration: held on the cases observed, which the evidence counts. Instants also lie around and before the Unix epoch, at the ends of 32-bit second counters and in distant years; bounds of the form valid value + k*2^s and ranges ending at 00:00 with any start must be rejected; in the updates part the list of services changes together with the schedule and a request that overlapped updates must be decided as one of the configurations in force during it decides as a whole.",
     "note": "Trusted: Go's time package and the host's zoneinfo database as ground truth for wall-clock readings; the oracle never uses elapsed-time arithmetic.",
     "technique": "runtime monitor: reference-model oracle over seeded inputs (exported API)",
 }
